@@ -823,4 +823,117 @@ theorem dispatch_fifo (pi : Nat) : ∀ (fuel : Nat) (w : W) (p : PoolSt), w.err 
         refine ⟨0, q', l1, a1, by rw [a2, q1]; simp, by rw [a3, q2], by rw [a4, g3]; simp [setPool], by rw [g4]; simp, g5⟩
 
 
+/-! ### isolation -/
+
+theorem absorb_other (pi li : Nat) (j : Nat) (hj : j ≠ pi) : ∀ (os : List Listener.Out) (w : W),
+    (absorb pi li os w).pools[j]? = w.pools[j]?
+  | [], w => rfl
+  | o :: os, w => by
+    have hstep : ∃ w1, absorb pi li (o :: os) w = absorb pi li os w1 ∧ w1.pools[j]? = w.pools[j]? := by
+      cases o with
+      | rejected x =>
+        cases x with
+        | none => exact ⟨_, rfl, rfl⟩
+        | some e => exact ⟨_, rfl, rejected_other pi e _ j hj⟩
+      | _ => exact ⟨_, rfl, rfl⟩
+    obtain ⟨w1, h1, h2⟩ := hstep
+    rw [h1, absorb_other pi li j hj os w1, h2]
+
+theorem insertEv_other (i e : Nat) (head : Bool) (w : W) (j : Nat) (hj : j ≠ i) :
+    (insertEv i e head w).pools[j]? = w.pools[j]? := by
+  unfold insertEv
+  split
+  · rfl
+  · rw [getElem?_setPool, if_neg (Ne.symm hj)]
+    split
+    · split <;> rfl
+    · rfl
+
+theorem insertEv_procs (i e : Nat) (head : Bool) (w : W) (j : Nat) :
+    (insertEv i e head w).pools[j]?.map (·.procs) = w.pools[j]?.map (·.procs) := by
+  by_cases hj : j = i
+  · subst hj
+    cases hp : w.pools[j]? with
+    | none => unfold insertEv; simp [hp]
+    | some p => rw [(insertEv_spec j e head w p hp).1]; simp [(insBuf_fields e head p).2.2.2.1]
+  · rw [insertEv_other i e head w j hj]
+
+theorem setSerial_procs (w : W) (i j : Nat) :
+    (setPool w i (fun p => { p with serial := newSerial p.serial })).pools[j]?.map (·.procs) = w.pools[j]?.map (·.procs) := by
+  rw [getElem?_setPool]
+  split
+  · cases w.pools[j]? <;> simp
+  · rfl
+
+/-- the listeners of every pool are untouched by `_acceptEvent` -/
+theorem acceptEvent_procs (i e : Nat) (head : Bool) (w : W) (j : Nat) :
+    (acceptEvent i e head w).pools[j]?.map (·.procs) = w.pools[j]?.map (·.procs) := by
+  unfold acceptEvent
+  split
+  · simp only []
+    split
+    · rw [insertEv_procs, setSerial_procs]
+      simp only [setEv_pools]
+      split <;> rfl
+    · split
+      · split <;> rfl
+      · rw [insertEv_procs]; split <;> rfl
+  · rfl
+
+theorem rejected_procs (pi e : Nat) (w : W) (j : Nat) :
+    (rejected pi e w).pools[j]?.map (·.procs) = w.pools[j]?.map (·.procs) := by
+  unfold rejected
+  generalize List.range w.pools.length = l
+  induction l generalizing w with
+  | nil => rfl
+  | cons i l ih =>
+    simp only [List.foldl_cons]
+    rw [ih]
+    split
+    · exact acceptEvent_procs i e true w j
+    · rfl
+
+theorem absorb_procs (pi li : Nat) (j : Nat) : ∀ (os : List Listener.Out) (w : W),
+    (absorb pi li os w).pools[j]?.map (·.procs) = w.pools[j]?.map (·.procs)
+  | [], w => rfl
+  | o :: os, w => by
+    have hstep : ∃ w1, absorb pi li (o :: os) w = absorb pi li os w1 ∧
+        w1.pools[j]?.map (·.procs) = w.pools[j]?.map (·.procs) := by
+      cases o with
+      | rejected x =>
+        cases x with
+        | none => exact ⟨_, rfl, rfl⟩
+        | some e => exact ⟨_, rfl, rejected_procs pi e _ j⟩
+      | _ => exact ⟨_, rfl, rfl⟩
+    obtain ⟨w1, h1, h2⟩ := hstep
+    rw [h1, absorb_procs pi li j os w1, h2]
+
+
+/-- whatever a listener does (`f` = any listener-level operation: its output arriving, its stdin becoming writable,
+    a pipe fault, its death ...) touches no other pool, and within its own pool no other listener -/
+theorem onListener_isolated (pi li : Nat) (f : Listener.S → Listener.S) (w : W) :
+    (∀ j, j ≠ pi → (onListener pi li f w).pools[j]? = w.pools[j]?) ∧
+    (∀ (p p' : PoolSt) (k : Nat), w.pools[pi]? = some p → (onListener pi li f w).pools[pi]? = some p' → k ≠ li →
+      p'.procs[k]? = p.procs[k]?) := by
+  unfold onListener
+  split
+  · exact ⟨fun _ _ => rfl, fun p p' k h1 h2 _ => by rw [h1] at h2; cases h2; rfl⟩
+  · split
+    · exact ⟨fun _ _ => rfl, fun p p' k h1 h2 _ => by rw [h1] at h2; cases h2; rfl⟩
+    · split
+      · exact ⟨fun _ _ => rfl, fun p p' k h1 h2 _ => by rw [h1] at h2; cases h2; rfl⟩
+      · rename_i pool hpool _ l _
+        refine ⟨fun j hj => ?_, fun p p' k h1 h2 hk => ?_⟩
+        · show (absorb pi li _ _).pools[j]? = _
+          rw [absorb_other pi li j hj, getElem?_setPool, if_neg (Ne.symm hj)]
+        · have h3 : (absorb pi li (f { p := l }).outs
+              (setPool w pi (fun p => { p with procs := p.procs.set li (f { p := l }).p }))).pools[pi]? = some p' := h2
+          have h4 := absorb_procs pi li pi (f { p := l }).outs
+            (setPool w pi (fun p => { p with procs := p.procs.set li (f { p := l }).p }))
+          rw [h3, getElem?_setPool] at h4
+          simp only [if_true, h1, Option.map_some] at h4
+          have h5 : p'.procs = p.procs.set li (f { p := l }).p := by simpa using h4
+          rw [h5, List.getElem?_set_ne (Ne.symm hk)]
+
+
 end Sv.Pool
